@@ -284,7 +284,7 @@ theorem exHolder_holds : Holds exB 3 exHolder := by
     rcases hs with ⟨j, hj, rfl⟩ | ⟨j, hj, rfl⟩
     · exact ⟨by simp [HBlock.shred, exB], by simp only [HBlock.shred, total_shreds_eq]; omega, rfl⟩
     · exact ⟨by simp [HBlock.shred, exB], by simp only [HBlock.shred, total_shreds_eq]; omega, rfl⟩
-  have hgood := (honest_block_once_partial exB exEnv 3 exB_wf (SlotData.new 3 5) ⟨rfl, good_new exB 3⟩ _ hhon).1
+  have hgood := (honest_never_flagged exB exEnv 3 exB_wf (SlotData.new 3 5) ⟨rfl, good_new exB 3⟩ _ hhon).1
   have hc : exHolder.dis.completed = some exB.block := by decide +kernel
   refine ⟨runDissem_sinv exEnv _ _ (sinv_new 3 5), exHolder.dis, ?_, hgood.2, by rw [hc]; rfl⟩
   unfold blockData
